@@ -84,6 +84,8 @@ pub const TOKENS_C: &[&str] = &[
     ".a", "#a", "a", ":host", ":not(", ":is(", "::b", "@media", "@import", "@supports", "@layer", "@font-face",
     "@keyframes", "{", "}", "(", ")", "[", "]", ";", ":", ",", " ", "1rpx", "-1.5rpx", "1px", "50%", "calc(", "url(",
     "url(\"", "\"x\"", "'", "/*", "*/", "<!--", "-->", "!important", "+", "-", "U+0-7F", "2n+1", "\\", "layer(", "supports(", "screen",
+    // (upper-case spellings: names of at-rules and functions are ASCII case-insensitive, the code paths that compare them are not all)
+    "LAYER(", "Supports(", "@IMPORT", "@MEDIA", "CALC(", "layer",
 ];
 
 pub const CSS_CONTEXTS: &[(&str, &str)] = &[
@@ -452,6 +454,29 @@ fn build_spaces(thorough: bool) -> Vec<Sub> {
         gen: Box::new(move |i| {
             let (pre, o, c, suf) = NEST_OPENERS[i as usize];
             Case::Tmpl { path: "p".to_string(), src: format!("{}{}{}{}", pre, o.repeat(64), c.repeat(64), suf) }
+        }),
+    });
+    // large templates: every declaration-site kind repeated until the counters of generated identifiers have passed their
+    // first reserved words (if / in / do after about 2200 declarations; var near 179 000 in the thorough tier); the parser
+    // fuel does not tick in the code generator, the 30 s watchdog does
+    const LARGE_KINDS: &[&str] = &[
+        "<a>x</a>",
+        "<a wx:if=\"{{x}}\"/>",
+        "<a wx:for=\"{{l}}\">{{item}}</a>",
+        "<a b=\"{{c?d[e]:f}}\"/>",
+        "<c><b slot:v>{{v}}</b></c>",
+        "<template is=\"{{x}}\" data=\"{{y}}\"/>",
+        "{{x}}<a/>",
+        "<slot name=\"{{x}}\" v=\"{{y}}\"/>",
+    ];
+    let large_sizes: &'static [usize] = if thorough { &[2300, 2800, 10000, 200000] } else { &[2300, 2800] };
+    subs.push(Sub {
+        name: "large:declarations".to_string(),
+        size: (LARGE_KINDS.len() * large_sizes.len()) as u64,
+        gen: Box::new(move |i| {
+            let kind = LARGE_KINDS[(i as usize) % LARGE_KINDS.len()];
+            let n = large_sizes[(i as usize) / LARGE_KINDS.len()];
+            Case::Tmpl { path: "p".to_string(), src: kind.repeat(n) }
         }),
     });
     // (e) stylesheets
